@@ -1,4 +1,273 @@
+/-
+Driver for C17: reads cases of op lines produced by the Go harness (which ran the REAL scheduler.TreeScheduler),
+and judges each case:
+  * SPEC on the OBSERVED output first: the observed executor / checkpoint events, in the order they happened, are fed
+    to the property monitor of Kap/Spec/C17.lean (every clause: released-is-silent, no-overlap,
+    consecutive-in-order-once, never-early, checkpoint-…), the quiescent liveness clause `dueIdle` is evaluated after
+    every op, and Schedule/Release/clock moves must have returned (returns-promptly);
+  * then observed = model: events per task id, the btree contents, the uniqueness index, `s.when`, the pending tick.
+-/
 import Kap.Basic
+import Kap.Spec.C17
+open Kap Kap.C17
 
-/-- Driver for property C17 (replaced by the property's driver). -/
-def main : IO Unit := Kap.driverMain (fun _ _ => .badop "driver not implemented")
+namespace Kap.C17.Drv
+
+/-- Occurrence table of one schedule object: `(from, next)` pairs; `none` = Next fails. -/
+structure Tbl where
+  sc : Nat
+  pairs : List (Int × Option Int)
+  truncatedAt : Option Int      -- the last listed occurrence when the table was cut (its successor is unknown)
+
+def parseTbl (sc : Nat) (last : Int) (tok : String) : Option Tbl := do
+  let parts := tok.splitOn ","
+  let nums := parts.dropLast
+  let endTok := parts.getLast?.getD ""
+  let occ ← nums.mapM (fun s => s.toInt?)
+  let froms := last :: occ
+  -- strictly increasing (the trusted contract of the cron library, validated on every table)
+  let rec incr : List Int → Bool
+    | a :: b :: r => decide (a < b) && incr (b :: r)
+    | _ => true
+  if !incr froms then none
+  let rec mk : List Int → List (Int × Option Int)
+    | a :: b :: r => (a, some b) :: mk (b :: r)
+    | [a] => if endTok == "!" then [(a, none)] else []
+    | [] => []
+  let trunc := if endTok == "~" then froms.getLast? else none
+  if endTok != "!" && endTok != "~" then none
+  pure { sc := sc, pairs := mk froms, truncatedAt := trunc }
+
+def lookupPair (l : List (Int × Option Int)) (t : Int) : Option Int :=
+  match l with
+  | [] => none
+  | (a, b) :: r => if a = t then b else lookupPair r t
+
+def mkEnv (tbls : List Tbl) (wks : List (Nat × Nat)) : Env :=
+  { nx := fun sc t => match tbls.find? (fun x => x.sc == sc) with
+                      | some tb => lookupPair tb.pairs t
+                      | none => none
+    wk := fun id => (aget wks id).getD 0 }
+
+def field (pre : String) (toks : List String) : Option String :=
+  (toks.find? (fun t => t.startsWith pre)).map (fun t => (t.drop pre.length).toString)
+
+def renderList (l : List String) : String := if l.isEmpty then "-" else ",".intercalate l
+
+def renderQueue (q : List Item) : String :=
+  renderList (q.map (fun it => s!"{it.whn}:{it.id}:{it.next}:{it.off}"))
+
+def renderIndex (ix : List (Nat × Int)) : String :=
+  renderList ((ix.mergeSort (fun a b => decide (a.1 ≤ b.1))).map (fun p => s!"{p.1}:{p.2}"))
+
+def renderWhen : Option Int → String
+  | none => "z"
+  | some w => toString w
+
+def evId : Ev → Nat
+  | .sched id .. | .schedErr id | .rel id | .start id .. | .finish id .. | .ckpt id .. | .onErr id => id
+  | .clock _ => 0
+
+/-- Ordered per-id rendering of executor/checkpoint events; `now` is the clock of the op. -/
+def renderEv (now : Int) : Ev → Option String
+  | .start id n r => some s!"s:{id}:{n}:{r}:{now}"
+  | .finish id n => some s!"f:{id}:{n}"
+  | .ckpt id t => some s!"c:{id}:{t}"
+  | _ => none
+
+def stableById (l : List Ev) : List Ev := l.mergeSort (fun a b => decide (evId a ≤ evId b))
+
+def parseEv (tok : String) : Option (Ev × Option Int) :=
+  match tok.splitOn ":" with
+  | ["s", i, n, r, c] => do pure (.start (← i.toNat?) (← n.toInt?) (← r.toInt?), some (← c.toInt?))
+  | ["f", i, n] => do pure (.finish (← i.toNat?) (← n.toInt?), none)
+  | ["c", i, t] => do pure (.ckpt (← i.toNat?) (← t.toInt?), none)
+  | ["e", i] => do pure (.onErr (← i.toNat?), none)
+  | _ => none
+
+def errCounts (l : List Ev) : List (Nat × Nat) :=
+  let ids := (l.filterMap (fun e => match e with | .onErr id => some id | _ => none))
+  let uniq := ids.eraseDups.mergeSort (fun a b => decide (a ≤ b))
+  uniq.map (fun i => (i, (ids.filter (· == i)).length))
+
+structure Ctx where
+  env : Env
+  tbls : List Tbl
+  model : St := {}
+  mon : Mon := {}
+  branches : List String := []
+  starts : Nat := 0
+  interesting : Nat := 0
+
+def addBr (c : Ctx) (b : String) : Ctx := if c.branches.contains b then c else { c with branches := b :: c.branches }
+def addBrIf (c : Ctx) (p : Bool) (b : String) : Ctx := if p then addBr c b else c
+
+def parseRes : String → Option Res
+  | "ok" => some .ok | "err" => some .err | "panic" => some .panic | _ => none
+
+def parseOp (ts : List String) : Option Op :=
+  match ts with
+  | "sched" :: id :: sc :: off :: last :: _ => do pure (.sched (← id.toNat?) (← sc.toNat?) (← off.toInt?) (← last.toInt?))
+  | ["rel", id] => do pure (.rel (← id.toNat?))
+  | ["adv", d] => do pure (.adv (← d.toNat?))
+  | ["done", id, r, cp] => do
+    let cpok ← (if cp == "cpok" then some true else if cp == "cperr" then some false else none)
+    pure (.done (← id.toNat?) (← parseRes r) cpok)
+  | _ => none
+
+def brIf (p : Bool) (b : String) : List String := if p then [b] else []
+
+/-- Branch coverage of the model for one op (looked up on the states before/after). -/
+def opBranches (E : Env) (op : Op) (s : St) : List String :=
+  match op with
+  | .sched id sc off last =>
+    match E.nx sc last with
+    | none => ["sched-next-error"]
+    | some nt =>
+      [if (aget s.index id).isSome then "sched-replace" else "sched-new",
+       (match s.swhen with
+        | none => "sched-arm-when-zero"
+        | some w => if w > nt + off then "sched-rearm-earlier" else "sched-no-rearm")] ++
+      brIf (nt + off ≤ s.now) "sched-already-due" ++
+      brIf (off < 0) "negative-offset" ++
+      brIf ((aget s.busy (E.wk id)).any (fun it => it.id == id)) "resched-while-in-flight" ++
+      brIf (s.queue.any (fun it => it.whn == nt + off && it.id != id)) "equal-when-tie" ++
+      brIf s.spinning "sched-while-spinning"
+  | .rel id =>
+    [if (aget s.index id).isSome then "release-scheduled" else "release-absent"] ++
+    brIf ((aget s.busy (E.wk id)).any (fun it => it.id == id)) "release-while-in-flight" ++
+    brIf (s.queue.head?.any (fun it => it.id == id) && s.queue.length ≥ 2) "release-head-leaves-stale-timer"
+  | .adv d =>
+    if s.tick then ["adv-refused-tick-stuck"] else
+    brIf (d == 0) "adv-zero" ++
+    (match s.queue.head? with
+     | some it =>
+       brIf (it.whn == s.now + d && d > 0) "adv-exactly-due" ++
+       brIf (it.whn == s.now + d + 1) "adv-one-short" ++
+       brIf (match E.nx it.sc it.next with | some n => n + it.off ≤ s.now + d | none => false) "adv-jumps-over-occurrences"
+     | none => ["adv-empty-queue"])
+  | .done id res cpok =>
+    match aget s.busy (E.wk id) with
+    | some it =>
+      if it.id == id then
+        [match res with | .ok => "done-ok" | .err => "done-err" | .panic => "done-panic"] ++ brIf (!cpok) "checkpoint-error"
+      else ["done-not-in-flight"]
+    | none => ["done-not-in-flight"]
+
+def isStart : Ev → Bool
+  | .start .. => true
+  | _ => false
+
+/-- newest first: an ErrorFunc call directly after the start of the same id = `updateNext` failed, item dropped. -/
+def dropped : List Ev → Bool
+  | .onErr i :: .start j n r :: rest => i == j || dropped (.start j n r :: rest)
+  | _ :: rest => dropped rest
+  | [] => false
+
+def loopBranches (E : Env) (s s' : St) (newEvs : List Ev) : List String :=
+  let nStarts := (newEvs.filter isStart).length
+  brIf (nStarts ≥ 1) "dispatch" ++
+  brIf (nStarts ≥ 2) "dispatch-several-in-one-op" ++
+  brIf s'.spinning "loop-spins-on-busy-worker" ++
+  brIf (s'.spinning && s'.queue.any (fun it => it.whn ≤ s'.now && (aget s'.busy (E.wk it.id)).any (fun b => b.id != it.id))) "blocked-by-other-task-on-worker" ++
+  brIf (s'.spinning && s'.queue.any (fun it => it.whn ≤ s'.now && (aget s'.busy (E.wk it.id)).any (fun b => b.id == it.id))) "blocked-by-own-run" ++
+  brIf s'.tick "tick-stuck" ++
+  brIf (s.spinning && !s'.spinning) "spin-ends" ++
+  brIf (s'.swhen.isNone && s.swhen.isSome) "loop-empty-when-zero" ++
+  brIf (match s'.timer with | some d => d < s'.now | none => false) "timer-rearmed-in-the-past" ++
+  brIf (match s'.swhen, s'.queue.head? with | some w, some it => w < it.whn | _, _ => false) "when-stale" ++
+  brIf (dropped newEvs) "drop-schedule-exhausted"
+
+def noteBranches (c : Ctx) (op : Op) (s s' : St) : Ctx :=
+  let newEvs := s'.trace.take (s'.trace.length - s.trace.length)
+  let nStarts := (newEvs.filter isStart).length
+  let c := (opBranches c.env op s ++ loopBranches c.env s s' newEvs).foldl addBr c
+  { c with starts := c.starts + nStarts,
+           interesting := c.interesting + (if s'.spinning || nStarts ≥ 2 then 1 else 0) }
+
+def judge (_id : String) (lines : Array String) : Verdict := Id.run do
+  -- pre-pass: the oracles of the whole case
+  let mut tbls : List Tbl := []
+  let mut wks : List (Nat × Nat) := []
+  for l in lines do
+    let (opT, _) := splitObs (tokens l)
+    match opT with
+    | "sched" :: id :: sc :: _ :: last :: rest =>
+      let some idn := id.toNat? | return .badop l
+      let some scn := sc.toNat? | return .badop l
+      let some lastn := last.toInt? | return .badop l
+      match field "wk=" rest, field "tbl=" rest with
+      | some w, some t =>
+        let some wn := w.toNat? | return .badop l
+        let some tb := parseTbl scn lastn t | return .badop s!"bad or non-increasing schedule table: {l}"
+        if tbls.any (fun x => x.sc == scn) then return .badop s!"schedule number reused: {l}"
+        tbls := tb :: tbls
+        wks := aset wks idn wn
+      | _, _ => return .badop s!"missing oracle tokens: {l}"
+    | _ => pure ()
+  let mut c : Ctx := { env := mkEnv tbls wks, tbls := tbls }
+  for l in lines do
+    let (opT, obs) := splitObs (tokens l)
+    if opT.head? == some "cfg" then continue
+    let some op := parseOp opT | return .badop l
+    let status := obs.head?.getD ""
+    if status == "badcron" || status == "badline" || status == "" then return .badop l
+    -- (1) the property on the observed output
+    if status == "blocked" then return .specfail "returns-promptly" s!"{" ".intercalate opT} did not return"
+    if status == "panic" then return .specfail "no-panic" s!"{" ".intercalate opT} panicked"
+    if status == "dead" then return .badop l
+    let some evTok := field "ev=" obs | return .badop l
+    let evToks := if evTok == "-" then [] else evTok.splitOn ","
+    if evToks.any (fun t => t.startsWith "o:") then return .specfail "no-overlap" s!"{" ".intercalate opT}: two Execute calls of one task at once ({evTok})"
+    let some obsEvs := evToks.mapM parseEv | return .badop l
+    let s := c.model
+    let callEv : List Ev := match op with
+      | .sched id sc off last => if status == "ok" then [.sched id sc off last] else [.schedErr id]
+      | .rel id => [.rel id]
+      | .adv d => if status == "refused" then [] else [.clock (c.mon.now + d)]
+      | .done .. => []
+    match monRun c.env.nx c.mon (callEv ++ obsEvs.map (·.1)) with
+    | .error clause => return .specfail clause s!"at `{" ".intercalate opT}` observed {evTok}"
+    | .ok m' => c := { c with mon := m' }
+    let idle := dueIdle c.env.wk c.mon
+    if !idle.isEmpty then
+      return .specfail "due-run-dispatched" s!"after `{" ".intercalate opT}` task(s) {idle} have a due occurrence, an idle worker and no run"
+    -- (2) observed = model
+    let s' := step c.env s op
+    c := noteBranches c op s s'
+    c := { c with model := s' }
+    -- the oracle tables must cover what the model looked up
+    for it in s'.queue do
+      if c.tbls.any (fun tb => tb.sc == it.sc && tb.truncatedAt == some it.next) then
+        return .badop s!"schedule table too short for {l}"
+    if status == "unsettled" then return .mismatch s!"the implementation did not become quiescent after `{" ".intercalate opT}`"
+    let expStatus : String := match op with
+      | .sched _ sc _ last => if (c.env.nx sc last).isSome then "ok" else "err"
+      | .rel _ => "ok"
+      | .adv _ => if s.tick then "refused" else "ok"
+      | .done id _ _ => if (aget s.busy (c.env.wk id)).any (fun it => it.id == id) then "ok" else "noinflight"
+    if status != expStatus then return .mismatch s!"`{" ".intercalate opT}`: status model {expStatus} observed {status}"
+    let newEvs := (s'.trace.take (s'.trace.length - s.trace.length)).reverse
+    let mEvs := renderList ((stableById newEvs).filterMap (renderEv s'.now))
+    let oSorted := obsEvs.mergeSort (fun a b => decide (evId a.1 ≤ evId b.1))
+    let oEvs := renderList (oSorted.filterMap (fun (p : Ev × Option Int) => match p.1, p.2 with
+        | Ev.start id n r, some clk => some s!"s:{id}:{n}:{r}:{clk}"
+        | e, _ => renderEv 0 e))
+    if mEvs != oEvs then return .mismatch s!"`{" ".intercalate opT}`: events model {mEvs} observed {oEvs}"
+    if errCounts newEvs != errCounts (obsEvs.map (·.1)) then
+      return .mismatch s!"`{" ".intercalate opT}`: ErrorFunc calls model {errCounts newEvs} observed {errCounts (obsEvs.map (·.1))}"
+    let chk (name : String) (m : String) : Option String :=
+      match field (name ++ "=") obs with
+      | some o => if o == m then none else some s!"`{" ".intercalate opT}`: {name} model {m} observed {o}"
+      | none => some s!"missing {name}"
+    for (name, m) in [("q", renderQueue s'.queue), ("ix", renderIndex s'.index), ("w", renderWhen s'.swhen), ("tick", boolTok s'.tick)] do
+      match chk name m with
+      | some d => return .mismatch d
+      | none => pure ()
+    if s'.now != c.mon.now then return .mismatch "clock"
+  let nt := c.starts ≥ 3 && c.interesting ≥ 1
+  return .ok nt c.branches.reverse
+
+end Kap.C17.Drv
+
+def main : IO Unit := Kap.driverMain Kap.C17.Drv.judge
